@@ -70,7 +70,8 @@ COQ_TY = {"int": "Z", "bytes": "bytes", "bool": "bool", "boollist": "list bool",
           "optint": "option Z",       # Optional[int]
           "char": "Z",                # a one-character str (the element of iterating over a str): its code point
           "optstr": "option (list Z)",
-          "filebuf": "bytes",         # io.BytesIO(data) read sequentially: what is left of it
+          "filebuf": "bytes",
+          "wbuf": "bytes",            # a local io.BytesIO() that is only written to: what has been written         # io.BytesIO(data) read sequentially: what is left of it
           "iter:bool": "list bool",
           "optbool": "option bool",   # a dict entry that holds a bool when present (None: the key is absent)
           "match2": "(list Z * list Z)",            # re.Match of a pattern with two groups that always take part
@@ -199,6 +200,8 @@ CLASSES3["StreamsInfo"] = {"packinfo": "opt:PackInfo", "unpackinfo": "opt:Unpack
 CLASSES3["FileEntry"] = {"emptystream": "bool", "emptyfile": "key:bool", "filename": "key:str", "creationtime": "key:optint",
                          "lastaccesstime": "key:optint", "lastwritetime": "key:optint", "attributes": "key:optint"}
 CLASSES3["FilesInfo"] = {"files": "list:FileEntry", "emptyfiles": "boollist"}
+CLASSES3["SignatureHeader"] = {"version": "tuple:bytes,bytes", "startheadercrc": "int", "nextheaderofs": "int",
+                               "nextheadersize": "int", "nextheadercrc": "int"}
 DICT_RECORDS = ("Coder", "FileEntry")                  # records that are Python dicts with string keys
 CTOR_RECORDS = {"Bond": ["incoder", "outcoder"]}   # classes built as C(a, b): __init__(self, a, b) stores its arguments
 # attributes __init__ sets to None that no translated method touches (compressor objects, password, ...)
@@ -290,9 +293,22 @@ for _key in ("creationtime", "lastaccesstime", "lastwritetime"):
     WAVE2["FilesInfo._write_times[%s]" % _key]["qual"] = "FilesInfo._write_times"
 # FilesInfo.write pads to a multiple of 4 from file.tell(): the position at entry is the explicit parameter pos0
 _rec3("FilesInfo.write", "objwriter", "FilesInfo", "FilesInfo_write", tell=True, locals={"emptystreams": "boollist"})
+# stage 4, part 2: SignatureHeader (calccrc, write, _write_skeleton; the bytes go to offset 0: file.seek(0, 0) comes first)
+def _sig(name, kind, coqname, **kw):
+    WAVE2[name] = dict(file="archiveinfo.py", qual=name, kind=kind, cls="SignatureHeader", coqname=coqname, out="ArchiveinfoSig",
+                       **dict({"args": {}, "ret": None}, **kw))
+
+
+_sig("SignatureHeader.__init__", "init", "SignatureHeader_init", ret="SignatureHeader")
+_sig("SignatureHeader.calccrc", "objproc", "SignatureHeader_calccrc", args={"length": "int", "header_crc": "int"}, ret="self", fuel=True)
+# _read works on the whole file: it starts with file.seek(len(MAGIC_7Z), 0); `inp` of the generated function is the file from offset 0
+_sig("SignatureHeader._read", "objreader", "SignatureHeader_read", ret="self", fuel=True, absolute=True)
+_sig("SignatureHeader.retrieve", "retrieve", "SignatureHeader_retrieve", ret="SignatureHeader")
+_sig("SignatureHeader.write", "objwriter", "SignatureHeader_write", seek0=True)
+_sig("SignatureHeader._write_skeleton", "objwriter", "SignatureHeader_write_skeleton", seek0=True)
 
 for _k, _v in WAVE2.items():
-    if _v["out"] == "ArchiveinfoRecords":
+    if _v["out"] in ("ArchiveinfoRecords", "ArchiveinfoSig"):
         _v["join"] = True     # an `if` whose branches fall through is emitted once, yielding the variables it assigns
 OUT_FILES = {
     # out -> (source description, Require line[, lines opening a Section, line closing it])
@@ -306,6 +322,11 @@ OUT_FILES = {
                "Variable dec : C -> bytes -> res (C * bytes).   (* self.cipher.decrypt(data) *)\n", "End AesBuf."),
     "ArchiveinfoRecords": ("py7zr/archiveinfo.py (header records)",
                            "From P7 Require Import Prelude PyPrims PyStr PyRe.\nFrom P7gen Require Import ArchiveinfoPrims."),
+    # the signature header: its CRC goes through helpers.calculate_crc32 (gen/HelpersCrc.v) over the same abstract zlib.crc32
+    "ArchiveinfoSig": ("py7zr/archiveinfo.py (class SignatureHeader)",
+                       "From P7 Require Import Prelude PyPrims PyStr PyRe.\nFrom P7gen Require Import ArchiveinfoPrims ArchiveinfoRecords.\n"
+                       "From P7gen Require HelpersCrc.",
+                       "Section ArchiveinfoSig.\nVariable zcrc32 : bytes -> Z -> Z.   (* zlib.crc32(data, value) *)\n", "End ArchiveinfoSig."),
     "HelpersCrc": ("py7zr/helpers.py (calculate_crc32)", "From P7 Require Import Prelude PyPrims PyStr.",
                    "Section HelpersCrc.\nVariable zcrc32 : bytes -> Z -> Z.   (* zlib.crc32(data, value) *)\n", "End HelpersCrc."),
 }
@@ -380,6 +401,19 @@ def init_text(module, cls, spec):
             vals.append(str(v.value) if v.value >= 0 else "(%d)" % v.value)
         elif isinstance(v, ast.Constant) and isinstance(v.value, bytes) and t == "bytes":
             vals.append("[" + "; ".join(str(b) for b in v.value) + "]")
+        elif isinstance(v, ast.UnaryOp) and isinstance(v.op, ast.USub) and isinstance(v.operand, ast.Constant) \
+                and isinstance(v.operand.value, int) and not isinstance(v.operand.value, bool) and t == "int":
+            vals.append("(-%d)" % v.operand.value)
+        elif isinstance(v, ast.Tuple) and t.startswith("tuple:") and len(v.elts) == len(t[6:].split(",")) \
+                and all(x == "bytes" for x in t[6:].split(",")) and all(isinstance(x, ast.Name) for x in v.elts):
+            parts = []
+            for x in v.elts:
+                binds = [st for st in module.body if isinstance(st, ast.Assign) and any(isinstance(n, ast.Name) and n.id == x.id for tg in st.targets for n in ast.walk(tg))]
+                stores = [n for n in ast.walk(module) if isinstance(n, ast.Name) and n.id == x.id and not isinstance(n.ctx, ast.Load)]
+                if len(binds) != 1 or len(stores) != 1 or not (isinstance(binds[0].value, ast.Constant) and isinstance(binds[0].value.value, bytes)):
+                    raise Refused("%s.__init__: %s is not a module-level bytes constant" % (cls, x.id))
+                parts.append("[" + "; ".join(str(b) for b in binds[0].value.value) + "]")
+            vals.append("(" + ", ".join(parts) + ")")
         else:
             raise Refused("%s.__init__: initial value of %s" % (cls, f))
     return "%s\nDefinition %s : %s := mk%s %s." % (record_text(cls), spec["coqname"], cls, cls, " ".join(vals))
@@ -465,6 +499,9 @@ class FnTr:
                 c = self.module_constant(e.id)
                 if c is not None:
                     return self.expr(c)
+                ic = self.imported_constant(e.id)
+                if ic is not None:
+                    return ic
                 self.refuse(e, "unknown name " + e.id)
             return [], e.id, self.ty[e.id]
         if isinstance(e, ast.Attribute) and self.module is not None:
@@ -608,6 +645,35 @@ class FnTr:
     def self_record(self):
         cls = self.spec["cls"]
         return "(mk%s %s)" % (cls, " ".join("self_" + f for f in self.fields))
+
+    def imported_constant(self, name):
+        """NAME imported with `from py7zr.<m> import NAME` where <m> binds it once, at module level, to
+        binascii.unhexlify("..") or a bytes literal: the bytes"""
+        if self.spec.get("out") != "ArchiveinfoSig" or name in self.local_names():
+            return None
+        imps = [(st, a) for st in self.module.body if isinstance(st, ast.ImportFrom) and st.level == 0 and (st.module or "").startswith("py7zr.")
+                for a in st.names if (a.asname or a.name) == name]
+        stores = [n for n in ast.walk(self.module) if isinstance(n, ast.Name) and n.id == name and not isinstance(n.ctx, ast.Load)]
+        if len(imps) != 1 or stores or imps[0][1].asname is not None:
+            return None
+        fname = imps[0][0].module.split(".", 1)[1] + ".py"
+        key = (self.spec["_repo"], fname)
+        if key not in _MODCACHE:
+            _MODCACHE[key] = ast.parse(open(os.path.join(self.spec["_repo"], "py7zr", fname), encoding="utf-8").read())
+        mod = _MODCACHE[key]
+        binds = [st for st in ast.walk(mod) if isinstance(st, (ast.Assign, ast.AnnAssign, ast.AugAssign))
+                 and any(isinstance(n, ast.Name) and n.id == name for t in (st.targets if isinstance(st, ast.Assign) else [st.target])
+                         for n in ast.walk(t))]
+        if len(binds) != 1 or binds[0] not in mod.body or not isinstance(binds[0], ast.Assign):
+            return None
+        v = binds[0].value
+        if isinstance(v, ast.Call) and ast.unparse(v.func) == "binascii.unhexlify" and len(v.args) == 1 and not v.keywords \
+                and isinstance(v.args[0], ast.Constant) and isinstance(v.args[0].value, str) \
+                and any(isinstance(st, ast.Import) and any(a.name == "binascii" and a.asname is None for a in st.names) for st in mod.body):
+            return [], "[" + "; ".join(str(b) for b in bytes.fromhex(v.args[0].value)) + "]", "bytes"
+        if isinstance(v, ast.Constant) and isinstance(v.value, bytes):
+            return [], "[" + "; ".join(str(b) for b in v.value) + "]", "bytes"
+        return None
 
     def const_object_attr(self, e):
         """NAME.X where NAME is imported from another module of the package and is there the single instance of a class
@@ -805,7 +871,7 @@ class FnTr:
                                                                            "    else Ok (%s, false)) [];" % acc]
             lines += ["let %s := %ss in" % (nm, nm)]
             return lines, nm, ("boollist" if te == "bool" else "list:" + te)
-        if g.ifs and self.spec.get("out") == "ArchiveinfoRecords" and isinstance(g.target, ast.Name) and g.target.id not in self.ty \
+        if g.ifs and self.spec.get("out") in ("ArchiveinfoRecords", "ArchiveinfoSig") and isinstance(g.target, ast.Name) and g.target.id not in self.ty \
                 and not self.has_io(e):
             # [elt for x in L if cond]
             p, v, t = self.expr(it)
@@ -824,7 +890,7 @@ class FnTr:
             return lines, nm, ("boollist" if te == "bool" else "list:" + te)
         if g.ifs:
             self.refuse(e, "comprehension filter")
-        if isinstance(e.elt, ast.Dict) and self.spec.get("out") == "ArchiveinfoRecords" and isinstance(it, ast.Call) \
+        if isinstance(e.elt, ast.Dict) and self.spec.get("out") in ("ArchiveinfoRecords", "ArchiveinfoSig") and isinstance(it, ast.Call) \
                 and isinstance(it.func, ast.Name) and it.func.id == "range" and len(it.args) == 1 and "range" not in self.local_names() \
                 and isinstance(g.target, ast.Name) and all(isinstance(k, ast.Constant) and isinstance(k.value, str) for k in e.elt.keys) \
                 and all(isinstance(v, ast.Constant) for v in e.elt.values):
@@ -917,7 +983,7 @@ class FnTr:
         self.refuse(e, "binop %s on %s,%s" % (type(op).__name__, tl, tr))
 
     def compare(self, e):
-        if len(e.ops) == 2 and self.spec.get("out") == "ArchiveinfoRecords" and isinstance(e.comparators[0], (ast.Name, ast.Constant)):
+        if len(e.ops) == 2 and self.spec.get("out") in ("ArchiveinfoRecords", "ArchiveinfoSig") and isinstance(e.comparators[0], (ast.Name, ast.Constant)):
             # a OP b OP c = (a OP b) and (b OP c); b is a name / constant: evaluating it twice is evaluating it once
             pa, va, ta = self.compare(ast.copy_location(ast.Compare(left=e.left, ops=[e.ops[0]], comparators=[e.comparators[0]]), e))
             pb, vb, tb = self.compare(ast.copy_location(ast.Compare(left=e.comparators[0], ops=[e.ops[1]], comparators=[e.comparators[1]]), e))
@@ -938,7 +1004,7 @@ class FnTr:
         pr, r, tr = self.expr(e.comparators[0])
         if isinstance(e.ops[0], (ast.Is, ast.IsNot)) and tr == "nonetype" and tl == "optstr":
             return pl, ("(negb (py_is_some %s))" if isinstance(e.ops[0], ast.Is) else "(py_is_some %s)") % l, "bool"
-        if isinstance(e.ops[0], (ast.Is, ast.IsNot)) and tr == "nonetype" and (self.fields or self.spec.get("out") == "ArchiveinfoRecords") \
+        if isinstance(e.ops[0], (ast.Is, ast.IsNot)) and tr == "nonetype" and (self.fields or self.spec.get("out") in ("ArchiveinfoRecords", "ArchiveinfoSig")) \
                 and not pl and (tl in ("int", "bool", "bytes", "list:int", "boollist") or tl.startswith("list:")):
             # a record field / value of a non-optional type is never None
             return [], ("false" if isinstance(e.ops[0], ast.Is) else "true"), "bool"
@@ -1066,6 +1132,63 @@ class FnTr:
             finally:
                 self.filevar = old
             return [_re.sub(r"\binp\b", sub, x) for x in p], v, t
+        if self.spec.get("out") == "ArchiveinfoSig":
+            # a local io.BytesIO() that is only written to: the variable holds what has been written
+            if isinstance(f, ast.Attribute) and isinstance(f.value, ast.Name) and self.ty.get(f.value.id) == "wbuf" \
+                    and f.attr == "getvalue" and not args and not e.keywords:
+                return [], f.value.id, "bytes"
+            if isinstance(f, ast.Name) and args and isinstance(args[0], ast.Name) and self.ty.get(args[0].id) == "wbuf" \
+                    and self.filevar != args[0].id and f.id in WHITELIST and WHITELIST[f.id][2] == "writer":
+                old = (self.filevar, self.io)
+                self.filevar, self.io = args[0].id, "out"
+                try:
+                    p, v, t = self.call(e)
+                finally:
+                    self.filevar, self.io = old
+                return [_re.sub(r"\bout\b", args[0].id, x) for x in p], v, t
+            if isinstance(f, ast.Attribute) and self.is_file(f.value) and f.attr == "seek" and self.io == "out" and self.spec.get("seek0") \
+                    and len(args) == 2 and not e.keywords and self.const_int(args[0]) == 0 and self.const_int(args[1]) == 0:
+                # file.seek(0, 0) before anything is written (checked in translate()): the bytes go to offset 0
+                return [], "tt", "none"
+            if isinstance(f, ast.Name) and f.id == "calculate_crc32" and f.id not in self.local_names() and self.spec.get("fuel") \
+                    and len(args) in (1, 2) and not e.keywords and any(
+                        isinstance(st, ast.ImportFrom) and st.module == "py7zr.helpers" and any(a.name == "calculate_crc32" and a.asname is None for a in st.names)
+                        for st in self.module.body):
+                hs = WAVE2["calculate_crc32"]
+                key = (self.spec["_repo"], hs["file"])
+                if key not in _MODCACHE:
+                    _MODCACHE[key] = ast.parse(open(os.path.join(self.spec["_repo"], "py7zr", hs["file"]), encoding="utf-8").read())
+                hn = find_function(_MODCACHE[key], "calculate_crc32")
+                ps = [a.arg for a in hn.args.args] if hn is not None else []
+                if ps != list(hs["args"]) or len(hn.args.defaults) != 2:
+                    self.refuse(e, "helpers.calculate_crc32 signature")
+                dv = []
+                for d in hn.args.defaults:
+                    try:
+                        val = ast.literal_eval(ast.unparse(d)) if isinstance(d, ast.Constant) else eval(compile(ast.Expression(d), "<default>", "eval"), {"__builtins__": {}})
+                    except Exception:
+                        self.refuse(e, "default argument of helpers.calculate_crc32")
+                    if not isinstance(val, int) or isinstance(val, bool) or val < 0:
+                        self.refuse(e, "default argument of helpers.calculate_crc32")
+                    dv.append(str(val))
+                p, v, t = self.expr(args[0])
+                if t != "bytes":
+                    self.refuse(e, "calculate_crc32 argument type " + t)
+                if len(args) == 2:
+                    p2, v2, t2 = self.expr(args[1])
+                    if t2 != "int":
+                        self.refuse(e, "calculate_crc32 argument type " + t2)
+                    p, dv = p + p2, [v2] + dv[1:]
+                t1 = self.fresh()
+                return p + ["do %s <- HelpersCrc.calculate_crc32 zcrc32 fuel %s %s;" % (t1, v, " ".join(dv))], t1, "int"
+            if isinstance(f, ast.Attribute) and self.is_file(f.value) and f.attr == "seek" and self.io == "inp" and self.spec.get("absolute") \
+                    and len(args) == 2 and not e.keywords and self.const_int(args[1]) == 0 and not getattr(self, "_abs_seek_done", False):
+                # file.seek(n, 0) as the first thing the method does: `inp` is the file from offset 0 (checked in translate())
+                p, n, t = self.expr(args[0])
+                if t != "int" or p:
+                    self.refuse(e, "seek offset")
+                self._abs_seek_done = True
+                return ["do _ <- (if %s <? 0 then Err EOther else Ok tt);" % n, "let inp := snd (rd_read inp %s) in" % n], "tt", "none"
         if isinstance(f, ast.Attribute) and self.is_file(f.value) and f.attr == "tell" and self.io == "out" and not args and not e.keywords \
                 and self.spec.get("tell"):
             # the position: where the method started (explicit parameter pos0) plus what it has written so far
@@ -1181,7 +1304,7 @@ class FnTr:
             t1 = self.fresh()
             it = args[0].id
             return ["let '(%s, %s) := py_next_default %s %s in" % (t1, it, it, "true" if args[1].value else "false")], t1, "bool"
-        if fn == "any" and self.spec.get("out") == "ArchiveinfoRecords" and len(args) == 1 and not e.keywords \
+        if fn == "any" and self.spec.get("out") in ("ArchiveinfoRecords", "ArchiveinfoSig") and len(args) == 1 and not e.keywords \
                 and isinstance(args[0], ast.GeneratorExp) and "any" not in self.local_names():
             ge = args[0]
             g = ge.generators[0]
@@ -1198,7 +1321,7 @@ class FnTr:
             return p, "(existsb (fun %s => %s) %s)" % (g.target.id, c, v), "bool"
         if fn == "iter" and self.module is not None and len(args) == 1 and not e.keywords and "iter" not in self.local_names():
             p, v, t = self.expr(args[0])
-            if t == "boollist" and self.spec.get("out") == "ArchiveinfoRecords":
+            if t == "boollist" and self.spec.get("out") in ("ArchiveinfoRecords", "ArchiveinfoSig"):
                 return p, v, "iter:bool"
             if t != "list:int":
                 self.refuse(e, "iter() of " + t)
@@ -1301,7 +1424,7 @@ class FnTr:
                 p, v, t = self.expr(a)
                 if self.module is not None and t == "optbytes" and at == "bytes":
                     p, v, t = self.unwrap(p, v, t)
-                if self.spec.get("out") == "ArchiveinfoRecords" and t == "optint" and at == "int":
+                if self.spec.get("out") in ("ArchiveinfoRecords", "ArchiveinfoSig") and t == "optint" and at == "int":
                     p, v, t = self.unwrap(p, v, t)      # None where a number is packed: struct.error / TypeError
                 if t != at:
                     self.refuse(e, "argument type of %s.%s" % (fn, an))
@@ -1400,7 +1523,7 @@ class FnTr:
                 pre += p
                 vs.append(v)
             return pre, "(%s %s)" % (fn, " ".join(vs)), rt
-        if isinstance(f.value, ast.Name) and f.value.id == "self" and self.spec.get("out") == "ArchiveinfoRecords":
+        if isinstance(f.value, ast.Name) and f.value.id == "self" and self.spec.get("out") in ("ArchiveinfoRecords", "ArchiveinfoSig"):
             return self.selfcall3(e)
         if isinstance(f.value, ast.Name) and f.value.id == "self" and self.kind == "method":
             return self.selfcall(e)
@@ -1469,7 +1592,7 @@ class FnTr:
             return p + pa, "(py_%s %s %s)" % (f.attr, v, a), "bool"
         if t == "path" and f.attr == "is_absolute" and not args:
             return p, "(pp_is_absolute %s)" % v, "bool"
-        if self.spec.get("out") == "ArchiveinfoRecords" and len(args) == 1 and isinstance(args[0], ast.Constant) \
+        if self.spec.get("out") in ("ArchiveinfoRecords", "ArchiveinfoSig") and len(args) == 1 and isinstance(args[0], ast.Constant) \
                 and args[0].value == "utf-16LE" and not e.keywords:
             t1 = self.fresh()
             if t == "bytes" and f.attr == "decode":
@@ -1478,7 +1601,7 @@ class FnTr:
                 return p + ["do %s <- py_encode_utf16le_char %s;" % (t1, v)], t1, "bytes"
             if t == "str" and f.attr == "encode":
                 return p + ["do %s <- py_encode_utf16le %s;" % (t1, v)], t1, "bytes"
-        if self.spec.get("out") == "ArchiveinfoRecords" and t == "str" and f.attr == "replace" and len(args) == 2 and not e.keywords \
+        if self.spec.get("out") in ("ArchiveinfoRecords", "ArchiveinfoSig") and t == "str" and f.attr == "replace" and len(args) == 2 and not e.keywords \
                 and all(isinstance(a, ast.Constant) and isinstance(a.value, str) and len(a.value) == 1 for a in args):
             return p, "(py_replace_char %s %d %d)" % (v, ord(args[0].value), ord(args[1].value)), "str"
         self.refuse(e, "method %s of %s" % (f.attr, t))
@@ -1803,12 +1926,12 @@ class FnTr:
                     and isinstance(st.args[0], ast.Name) and self.module is not None:
                 add(st.args[0].id)
             if isinstance(st, ast.Call) and self.module is not None and isinstance(st.func, ast.Attribute) \
-                    and st.func.attr in ("retrieve", "write", "_read", "read") and self.io and self.spec.get("out") == "ArchiveinfoRecords" \
+                    and st.func.attr in ("retrieve", "write", "_read", "read") and self.io and self.spec.get("out") in ("ArchiveinfoRecords", "ArchiveinfoSig") \
                     and any(self.is_file(a) for a in st.args):
                 add(self.io)
             if isinstance(st, ast.Call) and self.module is not None and isinstance(st.func, ast.Attribute) \
                     and isinstance(st.func.value, ast.Name) and st.func.value.id == "self" and self.io \
-                    and self.spec.get("out") == "ArchiveinfoRecords" and any(self.is_file(a) for a in st.args):
+                    and self.spec.get("out") in ("ArchiveinfoRecords", "ArchiveinfoSig") and any(self.is_file(a) for a in st.args):
                 add(self.io)      # self.m(file, ..): a method of the class that reads / writes the file
             if isinstance(st, ast.Call) and self.module is not None and isinstance(st.func, ast.Attribute) and st.func.attr == "write" \
                     and self.fields and self.io == "out":
@@ -1920,7 +2043,7 @@ class FnTr:
             # `x: list[str] = []`
             ann = ast.unparse(st.annotation).replace("List", "list")
             if isinstance(st.target, ast.Name) and ann == "list[bool]" and isinstance(st.value, ast.List) and not st.value.elts \
-                    and self.spec.get("out") == "ArchiveinfoRecords":
+                    and self.spec.get("out") in ("ArchiveinfoRecords", "ArchiveinfoSig"):
                 self.ty[st.target.id] = "boollist"
                 return ["let %s : list bool := [] in" % st.target.id] + cont()
             if not (isinstance(st.target, ast.Name) and ann == "list[str]" and isinstance(st.value, ast.List)
@@ -1928,7 +2051,27 @@ class FnTr:
                 self.refuse(st, "annotated assignment")
             self.ty[st.target.id] = "list:str"
             return ["let %s : list (list Z) := [] in" % st.target.id] + cont()
-        if isinstance(st, ast.Assign) and self.spec.get("out") == "ArchiveinfoRecords" and len(st.targets) == 1 \
+        if isinstance(st, ast.Assign) and self.spec.get("out") == "ArchiveinfoSig" and len(st.targets) == 1 and self.io == "inp" \
+                and self.is_file(st.targets[0]) and isinstance(st.value, ast.Call) and self.dotted(st.value.func) == "io.BytesIO" \
+                and self.is_module("io") and len(st.value.args) == 1 and not st.value.keywords \
+                and isinstance(st.value.args[0], ast.Call) and isinstance(st.value.args[0].func, ast.Name) \
+                and st.value.args[0].func.id == "read_fully" and "read_fully" not in self.local_names() \
+                and len(st.value.args[0].args) == 2 and not st.value.args[0].keywords and self.is_file(st.value.args[0].args[0]) \
+                and any(isinstance(x, ast.ImportFrom) and x.module == "py7zr.helpers" and any(a.name == "read_fully" and a.asname is None for a in x.names)
+                        for x in self.module.body):
+            # file = io.BytesIO(read_fully(file, n)): from here on `file` is the next n bytes (fewer at the end of the file);
+            # helpers.read_fully(fp, n) on a file object = fp.read(n) repeated until n bytes or the end (prims.py checks it)
+            p, n, t = self.expr(st.value.args[0].args[1])
+            if t != "int" or p:
+                self.refuse(st, "read_fully size")
+            t1 = self.fresh()
+            return ["do _ <- (if %s <? 0 then Err EOther else Ok tt);" % n, "let '(%s, _) := rd_read inp %s in" % (t1, n), "let inp := %s in" % t1] + cont()
+        if isinstance(st, ast.Assign) and self.spec.get("out") == "ArchiveinfoSig" and len(st.targets) == 1 \
+                and isinstance(st.targets[0], ast.Name) and isinstance(st.value, ast.Call) and self.dotted(st.value.func) == "io.BytesIO" \
+                and self.is_module("io") and not st.value.args and not st.value.keywords and st.targets[0].id not in self.ty:
+            self.ty[st.targets[0].id] = "wbuf"
+            return ["let %s : bytes := [] in" % st.targets[0].id] + cont()
+        if isinstance(st, ast.Assign) and self.spec.get("out") in ("ArchiveinfoRecords", "ArchiveinfoSig") and len(st.targets) == 1 \
                 and isinstance(st.targets[0], ast.Name) and isinstance(st.value, ast.Call) and self.dotted(st.value.func) == "io.BytesIO" \
                 and self.is_module("io") and len(st.value.args) == 1 and not st.value.keywords and self.io == "inp" \
                 and st.targets[0].id != self.filevar and self.ty.get(st.targets[0].id, "filebuf") == "filebuf":
@@ -1993,7 +2136,7 @@ class FnTr:
                 return pi + ["do %s <- py_index %s %s;" % (t0, arr, i)] + p + \
                     ["do %s <- py_setitem %s %s %s;" % (arr, arr, i, v)] + cont()
             self.refuse(st, "augassign target")
-        if isinstance(st, ast.Expr) and self.spec.get("out") == "ArchiveinfoRecords" and isinstance(st.value, ast.Call) \
+        if isinstance(st, ast.Expr) and self.spec.get("out") in ("ArchiveinfoRecords", "ArchiveinfoSig") and isinstance(st.value, ast.Call) \
                 and isinstance(st.value.func, ast.Name) and st.value.func.id == "list" and "list" not in self.local_names() \
                 and "map" not in self.local_names() and len(st.value.args) == 1 and not st.value.keywords \
                 and isinstance(st.value.args[0], ast.Call) and isinstance(st.value.args[0].func, ast.Name) \
@@ -2066,7 +2209,7 @@ class FnTr:
         if isinstance(st, ast.If) and self.module is not None and isinstance(st.test, ast.Compare) \
                 and len(st.test.ops) == 1 and isinstance(st.test.ops[0], (ast.Is, ast.IsNot)) \
                 and isinstance(st.test.comparators[0], ast.Constant) and st.test.comparators[0].value is None \
-                and not (self.spec.get("out") == "ArchiveinfoRecords"):
+                and not (self.spec.get("out") in ("ArchiveinfoRecords", "ArchiveinfoSig")):
             # `if x is None:` / `if x is not None:` on an Optional[int] variable: a match that rebinds x as the int
             x = st.test.left
             if not (isinstance(x, ast.Name) and self.ty.get(x.id) in ("optint", "optmatch2")):
@@ -2133,7 +2276,7 @@ class FnTr:
             for kx, vx in ty_a.items():
                 self.ty.setdefault(kx, vx)
             return p + ["if %s then" % c] + ["  " + x for x in a] + ["else"] + b
-        if isinstance(st, ast.Raise) and self.module is not None and (not self.loops or self.spec.get("out") == "ArchiveinfoRecords"):
+        if isinstance(st, ast.Raise) and self.module is not None and (not self.loops or self.spec.get("out") in ("ArchiveinfoRecords", "ArchiveinfoSig")):
             # raise E(...) : the function ends with Err (the arguments of the exception are not evaluated here: they must
             # be effect-free names / constants)
             x = st.exc
@@ -2406,7 +2549,7 @@ class FnTr:
             self.refuse(st, "while")
         if any(isinstance(n, ast.Return) for n in ast.walk(ast.Module(body=st.body, type_ignores=[]))):
             self.refuse(st, "return inside while")
-        state = [v for v in self.assigned(st.body) if v in self.ty or (v in ("inp", "out") and self.spec.get("out") == "ArchiveinfoRecords")]
+        state = [v for v in self.assigned(st.body) if v in self.ty or (v in ("inp", "out") and self.spec.get("out") in ("ArchiveinfoRecords", "ArchiveinfoSig"))]
         if not state:
             self.refuse(st, "loop without state")
         pc, c = self.test(st.test)
@@ -2467,7 +2610,7 @@ class FnTr:
                 pre, xs, elty = p, v, t[5:]
             elif t == "boollist":
                 pre, xs, elty = p, v, "bool"
-            elif t == "str" and self.spec.get("out") == "ArchiveinfoRecords":
+            elif t == "str" and self.spec.get("out") in ("ArchiveinfoRecords", "ArchiveinfoSig"):
                 pre, xs, elty = p, v, "char"
             else:
                 self.refuse(st, "iteration over " + t)
@@ -2543,6 +2686,23 @@ class FnTr:
     def translate(self):
         node = self.node
         params = [a.arg for a in node.args.args]
+        if self.spec.get("absolute"):
+            # the reader positions the file itself: its first statement is file.seek(n, 0) and there is no other seek
+            body = [st for st in node.body if not (isinstance(st, ast.Expr) and isinstance(st.value, ast.Constant))]
+            seeks = [n for n in ast.walk(node) if isinstance(n, ast.Call) and isinstance(n.func, ast.Attribute) and n.func.attr == "seek"]
+            if not body or len(seeks) != 1 or not (isinstance(body[0], ast.Expr) and body[0].value is seeks[0]) \
+                    or len(seeks[0].args) != 2 or ast.unparse(seeks[0].args[1]) != "0" or len(params) < 2 \
+                    or ast.unparse(seeks[0].func.value) != params[1]:
+                self.refuse(node, "a reader of the whole file must start with file.seek(n, 0)")
+        if self.spec.get("seek0"):
+            # the writer positions the file at 0 before it writes anything: only asserts may come before file.seek(0, 0),
+            # and there is no other seek
+            body = [st for st in node.body if not (isinstance(st, ast.Expr) and isinstance(st.value, ast.Constant))]
+            k = next((i for i, st in enumerate(body) if not isinstance(st, ast.Assert)), len(body))
+            seeks = [n for n in ast.walk(node) if isinstance(n, ast.Call) and isinstance(n.func, ast.Attribute) and n.func.attr == "seek"]
+            if k >= len(body) or len(seeks) != 1 or not (isinstance(body[k], ast.Expr) and body[k].value is seeks[0]) \
+                    or ast.unparse(seeks[0]) != "%s.seek(0, 0)" % (params[1] if len(params) > 1 else "?"):
+                self.refuse(node, "a writer at offset 0 must start (after its asserts) with file.seek(0, 0)")
         if self.kind in ("reader", "writer"):
             self.filevar = params[0]
             params = params[1:]
@@ -2635,7 +2795,7 @@ class FnTr:
                 rt = "(%s * (%s))" % (rt, " * ".join(coq_ty(t) for _, t in self.spec["state"].values()))
             head = "Definition %s %s : res %s :=" % (self.spec.get("coqname", self.name.split(".")[-1]), sig,
                                                      "(%s)" % rt if " " in rt and not rt.startswith("(") else rt)
-        stmts = self.lower(node.body) if self.module is not None and self.spec.get("out") == "ArchiveinfoRecords" \
+        stmts = self.lower(node.body) if self.module is not None and self.spec.get("out") in ("ArchiveinfoRecords", "ArchiveinfoSig") \
             and self.kind in ("objreader", "objwriter", "method", "objfun", "objproc", "classinit") else node.body
         if self.kind == "classinit":
             # obj = cls() ; ... obj.x ... ; return obj   ==   the same method body on a fresh object called self
